@@ -47,13 +47,15 @@ def decode_actions(n, l):
     return acts, l[i:]
 
 
-def make_port(autoreset, echo, script, state, faults=()):
+def make_port(autoreset, echo, script, state, faults=(), locking=True):
     faults = list(faults)
     import mido.ports as ports
 
     base = ports.EchoPort if echo else ports.BaseIOPort
 
     class Dev(base):
+        _locking = locking          # False: a port class that does its own locking (the rtmidi backend's ports, IOPort): same behaviour in one thread
+
         def _open(self, **kw):
             state['closes'] = 0
             state['sent'] = []
@@ -63,7 +65,9 @@ def make_port(autoreset, echo, script, state, faults=()):
             state['closes'] += 1
 
         def _send(self, msg):
+            state.setdefault('attempts', []).append(msgid(msg))
             if faults and faults.pop(0):
+                state.setdefault('faulted', []).append(msgid(msg))
                 raise OSError('device fault')
             if echo:
                 state['taken'].append(msgid(msg))
@@ -103,6 +107,17 @@ def ops_kinds(ops):
 
 
 def impl_port(case):
+    """the case on a port class with the library's lock and on one that declares its own locking (`_locking = False`): one thread cannot tell them apart"""
+    out, fail, tag = impl_port_1(case, True)
+    out2, fail2, _ = impl_port_1(case, False)
+    if fail is None:
+        fail = fail2 and (fail2[0], 'on a port class with _locking = False: ' + fail2[1])
+    if fail is None and out2 != out:
+        fail = ('nonlocking-differs', 'the history behaves differently on a port class with _locking = False: %r, with the lock %r' % (out2[:60], out[:60]))
+    return out, fail, tag
+
+
+def impl_port_1(case, locking):
     import mido.ports as ports
     ar, echo, fuel, nf = case[:4]
     faults = case[4:4 + nf]
@@ -110,7 +125,7 @@ def impl_port(case):
     script, ops = decode_actions(ns, case[5 + nf:])
     state = {'sleeps': 0, 'taken': []}
     delivered = []
-    port = make_port(ar, echo, script, state, faults)
+    port = make_port(ar, echo, script, state, faults, locking)
     per_call = {'n': 0}
 
     def fake_sleep():
@@ -212,6 +227,16 @@ def impl_port(case):
             rs = [x for x in state['sent'] if x >= 1000]
             if rs != [1000 + j for j in range(32)] or state['sent'][-32:] != rs:
                 fail = ('autoreset', 'autoreset: reset messages on the device: %r' % (rs,))
+        if fail is None and ar and not echo and port.closed and any(faults) and 8 not in ops_kinds(ops):
+            # a device that fails now and then: however the port came to be closed (close(), a with-block left normally or through an
+            # exception, the device closing itself), the reset messages were offered to the device, once, in order, up to the first one it refused
+            att = [x for x in state.get('attempts', []) if x >= 1000]
+            bad = [x for x in state.get('faulted', []) if x >= 1000]
+            want = [1000 + j for j in range(32)]
+            if bad:
+                want = want[:want.index(bad[0]) + 1]
+            if att != want:
+                fail = ('autoreset', 'autoreset on a device that fails now and then: the reset messages offered to the device before it was released are %r, expected %r' % (att[:40], want[:40]))
     finally:
         ports.sleep = saved
     return out, fail, 'echo' if echo else ('autoreset' if ar else 'plain')
